@@ -30,7 +30,7 @@ ROUTES = {'appname': ('tags', None, 'app_name'), 'appversion': ('tags', None, 'a
           'cpu_arch': ('contexts', 'device', 'arch'), 'host_name': ('contexts', 'device', 'name')}
 NAMES = list(ROUTES) + ['seq_number', 'user', 'line', 'file', 'thread_id', 'Z', '\u00e9', 'x y', 'app_name', 'qt_version', 'name',
                         'appnam', 'appnamee', 'os_nam', 'host_name2', 'Appname', '', 'k\n', '\uffff', '\U0001F600k', 'extra', 'tags']
-CATS = ['default', 'net', 'app.ui', '', 'qt.core', 'Default', 'default ', 'defaul']
+CATS = ['default', 'net', 'app.ui', '', 'qt.core', 'Default', 'default ', 'defaul', './default', 'default/', 'x/../default', ' default', 'default//']
 FILES = ['/a/b.cpp', 'main.cpp', '', '../x y/z.h']
 FUNCS = ['void f(int)', 'int main(int, char**)', '', 'f']
 LINES = [0, 1, 42, 99999, 2147483647]
@@ -69,14 +69,16 @@ def gen_case(rng, hist, stream):
             r = rng.random()
             if r < 0.75:
                 v = ('s', J.gen_units(rng, None, 10, mal and rng.random() < 0.3))
-            elif r < 0.9:
+            elif r < 0.83:
                 v = (rng.choice('iId'), rng.choice(J.SMALL_INTS))
+            elif r < 0.9:
+                v = J.gen_number(rng, hist, J.INT_TYPED)   # int / uint / qlonglong / qulonglong at their boundaries: toString() = the digits
             else:
                 v = ('b', rng.random() < 0.5)
         else:
             v = J.gen_value(rng, hist, 0, mal)
-            if k in ROUTES and v[0] == 'd':
-                v = ('i', v[1])  # QVariant(double).toString() is outside the model (shortest 'g' form, e.g. 1e+06)
+            if k in ROUTES and v[0] in 'dF':
+                v = ('i', v[1])  # QVariant(double / float).toString() is outside the model (shortest 'g' form, e.g. 1e+06)
         attrs.append((J.units(k), v))
     r = rng.random()
     if r < 0.25:
@@ -93,9 +95,9 @@ def gen_case(rng, hist, stream):
     ms = rng.choice(TIMES) if r < 0.3 else (rng.randrange(0, Y9999 + 1) if r < 0.6 else 1700000000000 + rng.randrange(0, 10 ** 11))
     nul = rng.random() < 0.15
     case = {'ms': ms, 'type': rng.randrange(5), 'msg': msg, 'fmt': None if rng.random() < 0.5 else J.gen_units(rng, None, 10),
-            'cat': None if rng.random() < 0.03 else J.units(rng.choice(CATS)),
-            'file': None if nul or rng.random() < 0.05 else J.units(rng.choice(FILES)),
-            'fn': None if nul or rng.random() < 0.05 else J.units(rng.choice(FUNCS)),
+            'cat': None if rng.random() < 0.03 else J.units(J.gen_ascii(rng, hist, CATS, 'category')),
+            'file': None if nul or rng.random() < 0.05 else J.units(J.gen_ascii(rng, hist, FILES, 'file')),
+            'fn': None if nul or rng.random() < 0.05 else J.units(J.gen_ascii(rng, hist, FUNCS, 'function')),
             'line': rng.choice(LINES), 'attrs': attrs, 'stream': stream}
     if mal and J.well_formed(case['msg']) and all(J.value_wf(v) for _, v in attrs):
         case['msg'] = case['msg'] + [0xDC00]
@@ -118,7 +120,7 @@ def to_qstring(v):
     t = v[0]
     if t == 's':
         return J.pystr(v[1]), False
-    if t in 'iId':
+    if t in J.NUM_TOKENS:
         return str(v[1]), False
     if t == 'b':
         return ('true' if v[1] else 'false'), False
@@ -276,6 +278,21 @@ def shrink_case(c, still_fails):
         t = dict(cur); t[field] = simple
         if still_fails(t):
             cur = t
+        elif field in ('file', 'fn', 'cat') and cur[field]:
+            def f(items, field=field):
+                t = dict(cur); t[field] = list(items)
+                return bool(items) and still_fails(t)
+            cur[field] = vlib.shrink_list(cur[field], f, 80)
+    # a numeric attribute value: the smallest magnitude of the same type that still fails (halving)
+    for n, (k, v) in enumerate(cur['attrs']):
+        if v[0] in J.NUM_TOKENS:
+            z = v[1]
+            for cand in (0, 1, -1, 2 ** 31 - 1, 2 ** 31, -(2 ** 31), 2 ** 32 - 1, 2 ** 32):
+                if abs(cand) < abs(z) and J.NUM_TYPES[v[0]][1] <= cand <= J.NUM_TYPES[v[0]][2]:
+                    t = dict(cur); t['attrs'] = cur['attrs'][:n] + [(k, (v[0], cand))] + cur['attrs'][n + 1:]
+                    if still_fails(t):
+                        cur = t
+                        break
     return cur
 
 
@@ -301,7 +318,8 @@ def run():
     chk.assumptions = ['strings are sequences of 16-bit units (theorems) / well-formed UTF-16 (oracle streams); lone surrogates are only diffed',
                        'message times lie in years 0001..9999 (four-digit ISO years)', 'the harness runs under three (TZ, system locale) environments incl. ar_EG / fa_IR; the event must not depend on them',
                        'a list, map or null under a routed name is rendered "" by QVariant::toString and skipped in extra: reported as kind routed_nonscalar_value (open known finding F16; C18_routed_nonscalar_value_lost_refuted); C18_oracle_holds assumes routed_scalar',
-                       'a double under a routed name is rendered in shortest-g form (number text): not generated, observation only',
+                       'numeric attribute values are integers of magnitude <= 2^53 held by an int, uint, qlonglong, qulonglong, double or float (float: <= 2^24) inside the range of the type; the type is part of the model input (JsonDefs.num_value); long / short / char QVariants are not generated (QJsonValue::fromVariant of Qt 5.15 renders them as strings)',
+                       'a double / float under a routed name is rendered in shortest-g form (number text): not generated beyond small values, observation only',
                        'a fingerprint cut through a surrogate pair is an observation, not a violation (the cut is in UTF-16 units)',
                        'thread id and Qt version string are read from the run and given to the model; the event id is taken from the output']
     chk.proof(vlib.proof_leg('Properties_C18', ['json', 'sentry']))
@@ -433,7 +451,7 @@ def run():
     chk.cov.update({
         'evaluations': len(cases), 'corpus_cases': ncorpus,
         'distinct_nontrivial': len({line_of(c) for c in cases if nontrivial(c)}),
-        'rule': 'generated events (all five types, categories around "default", messages around the 100-unit cut, routed and arbitrary attribute '
+        'rule': 'generated events (all five types, categories around "default" incl. path-like ones, path-like file/function strings, all six numeric QVariant types at their boundaries, messages around the 100-unit cut, routed and arbitrary attribute '
                 'names with repeats, calendar boundary times 0001..9999 under three TZ settings); non-trivial = has attributes, a message '
                 'longer than the cut or a character that is escaped / non-ASCII',
         'streams': {s: sum(1 for c in cases if c['stream'] == s) for s in ('wf', 'routed-any', 'malformed')},
@@ -450,6 +468,9 @@ def run():
         'duplicate_attribute_names': sum(1 for c in cases if len({tuple(k) for k, _ in c['attrs']}) < len(c['attrs'])),
         'boundary_times': sum(1 for c in cases if c['ms'] in TIMES), 'time_zone|system_locale_of_sub_runs': TZS,
         'messages_of_8191_or_more_units': sum(1 for c in cases if len(c['msg']) >= 8191),
+        'path_like_strings': {f: sum(1 for c in cases if c[f] and J.path_shapes(J.pystr(c[f]))) for f in ('cat', 'file', 'fn')},
+        'numeric_type_histogram': {J.NUM_TYPES[t][0]: hist.get('num_' + J.NUM_TYPES[t][0], 0) for t in J.NUM_TOKENS},
+        'numeric_values_under_routed_names': sum(1 for c in cases for k, v in c['attrs'] if J.pystr(k) in ROUTES and v[0] in J.NUM_TOKENS),
         'observations': obs, 'generator_histogram': dict(sorted(hist.items())),
     })
     for i in (0, len(cases) // 3, len(cases) - 1):
